@@ -32,9 +32,9 @@ func init() {
 }
 
 func decodeLoopInfo(c *Ctx) (fn *ssa.Function, get *ssa.Call, skip *ssa.Call, known *ssa.BasicBlock, why string) {
-	fn = c.Func(pkgReflect, "(*tDecoder).Decode")
+	fn = c.decodeLoopFn()
 	if fn == nil {
-		return nil, nil, nil, nil, "(*tDecoder).Decode not found"
+		return nil, nil, nil, nil, "struct decoder (field loop with GetField) not found in the decode closure"
 	}
 	for _, b := range fn.Blocks {
 		for _, ins := range b.Instrs {
@@ -64,6 +64,19 @@ func decodeLoopInfo(c *Ctx) (fn *ssa.Function, get *ssa.Call, skip *ssa.Call, kn
 }
 
 func isLoopBlock(b *ssa.BasicBlock) bool { return blockReaches(b, b) }
+
+// isValueDecode: f decodes one value from the input into a destination pointer ((.., []byte, unsafe.Pointer, ..) (int, error) in the decode closure).
+func isValueDecode(c *Ctx, f *ssa.Function, closure map[*ssa.Function]bool) bool {
+	if f == nil || !closure[f] || !hasContract(f) {
+		return false
+	}
+	for _, p := range f.Params {
+		if isUnsafePointer(p.Type()) {
+			return true
+		}
+	}
+	return false
+}
 
 // knownFieldEdge: block b is dominated by (lookup != nil) and (lookup.Type.WT == wire type byte).
 func knownFieldEdge(b *ssa.BasicBlock, get *ssa.Call, a *linAn) (nonNil, wtEq bool) {
@@ -143,7 +156,7 @@ func ruleFieldDispatch(c *Ctx) []Ob {
 				continue
 			}
 			n := shortFn(f)
-			if n != "decodeFixedSizeTypes" && n != "decodeStringNoCopy" && n != "tDecoder.decodeType" && n != "tDecoder.mallocIfPointer" {
+			if !isValueDecode(c, f, closure) && n != "tDecoder.mallocIfPointer" {
 				continue
 			}
 			nn, eq := knownFieldEdge(b, get, a)
@@ -488,8 +501,7 @@ func ruleRequired(c *Ctx) []Ob {
 				if !ok || call.Call.StaticCallee() == nil {
 					continue
 				}
-				n := shortFn(call.Call.StaticCallee())
-				if n != "decodeFixedSizeTypes" && n != "decodeStringNoCopy" && n != "tDecoder.decodeType" {
+				if !isValueDecode(c, call.Call.StaticCallee(), closure) {
 					continue
 				}
 				nDec++
@@ -883,10 +895,14 @@ func ruleInitDefault(c *Ctx) []Ob {
 		s.undec("kinds", "-", err.Error())
 		return s.obs
 	}
-	dt := c.Func(pkgReflect, "(*tDecoder).decodeType")
-	dec := c.Func(pkgReflect, "(*tDecoder).Decode")
-	if dt == nil || dec == nil {
-		s.bad("roles", "-", "decodeType / Decode not found")
+	dt := c.initDefaultFn()
+	dec := c.decodeLoopFn()
+	if dec == nil {
+		s.bad("roles", "-", "struct decoder not found")
+		return s.obs
+	}
+	if dt == nil {
+		s.bad("struct-case:init", c.Pos(dec.Pos()), "InitDefault is never invoked in the decode closure: nested structs would not get their declared defaults")
 		return s.obs
 	}
 	var pparam ssa.Value
@@ -898,10 +914,18 @@ func ruleInitDefault(c *Ctx) []Ob {
 	// struct case: returns
 	var tail *ssa.Call
 	nRet := 0
+	hasKindSwitch := false
 	for _, b := range dt.Blocks {
-		cs, _ := caseSet(b, ".T")
-		if len(cs) != 1 || cs[0] != k.byName["STRUCT"] {
-			continue
+		if cs, _ := caseSet(b, ".T"); cs != nil {
+			hasKindSwitch = true
+		}
+	}
+	for _, b := range dt.Blocks {
+		if hasKindSwitch {
+			cs, _ := caseSet(b, ".T")
+			if len(cs) != 1 || cs[0] != k.byName["STRUCT"] {
+				continue
+			}
 		}
 		for _, ins := range b.Instrs {
 			switch x := ins.(type) {
@@ -994,6 +1018,7 @@ func ruleInitDefault(c *Ctx) []Ob {
 	if root := c.SSA[pkgReflect].Func("Decode"); root != nil {
 		var call *ssa.Call
 		clean := true
+		_ = dt
 		for _, b := range root.Blocks {
 			for _, ins := range b.Instrs {
 				x, ok := ins.(*ssa.Call)
@@ -1089,12 +1114,13 @@ func init() {
 
 func ruleMapDecode(c *Ctx) []Ob {
 	s := newSink(c, "F.map-decode")
-	dt := c.Func(pkgReflect, "(*tDecoder).decodeType")
-	if dt == nil {
-		s.bad("roles", "-", "decodeType not found")
+	dt := c.mapDecodeFn()
+	if dt == nil || descParam(dt) == nil {
+		s.bad("roles", "-", "map decoder (SetMapIndex) not found in the decode closure")
 		return s.obs
 	}
-	t := dt.Params[1].Name()
+	t := descParam(dt).Name()
+	closure := c.decodeClosure()
 	var setIdx *ssa.Call
 	var decodes []*ssa.Call
 	for _, b := range dt.Blocks {
@@ -1124,8 +1150,7 @@ func ruleMapDecode(c *Ctx) []Ob {
 			if !ok || call.Call.StaticCallee() == nil {
 				continue
 			}
-			n := shortFn(call.Call.StaticCallee())
-			if n == "tDecoder.decodeType" || n == "decodeFixedSizeTypes" || isElemDecodeHelper(call.Call.StaticCallee()) {
+			if isValueDecode(c, call.Call.StaticCallee(), closure) {
 				decodes = append(decodes, call)
 			}
 		}
@@ -1214,6 +1239,56 @@ func ruleMapDecode(c *Ctx) []Ob {
 					if bo.Op == token.EQL && cd.Truth || bo.Op == token.NEQ && !cd.Truth {
 						good = true
 					}
+				}
+			}
+			if !good {
+				// early-return style: every failing entry decode leaves the function, so the store is reached only on success
+				good = true
+				errVals := map[ssa.Value]bool{}
+				for _, call := range decodes {
+					for _, r := range referrers(call) {
+						if ex, ok := r.(*ssa.Extract); ok && isErrorType(ex.Type()) {
+							errVals[ex] = true
+						}
+					}
+				}
+				for changed := true; changed; {
+					changed = false
+					for v := range errVals {
+						for _, r := range referrers(v) {
+							if p, ok := r.(*ssa.Phi); ok && !errVals[p] {
+								errVals[p] = true
+								changed = true
+							}
+						}
+					}
+				}
+				tested := 0
+				for v := range errVals {
+					for _, rr := range referrers(v) {
+						bo, ok := rr.(*ssa.BinOp)
+						if !ok || !isNilConst(bo.Y) {
+							continue
+						}
+						for _, r3 := range referrers(bo) {
+							iff, ok := r3.(*ssa.If)
+							if !ok {
+								continue
+							}
+							tested++
+							errIdx := 0
+							if bo.Op == token.EQL {
+								errIdx = 1
+							}
+							eb := iff.Block().Succs[errIdx]
+							if eb == b || blockReaches(eb, b) {
+								good = false
+							}
+						}
+					}
+				}
+				if tested == 0 {
+					good = false
 				}
 			}
 			s.check(good, "publish-on-success", c.InstrPos(st), "the map is stored into the destination only when every entry decoded", "a partially decoded map is stored into the destination")
